@@ -1,6 +1,7 @@
 pub mod c01;
 pub mod c02;
 pub mod c03;
+pub mod c04;
 pub mod c05;
 pub mod c06;
 pub mod c07;
@@ -16,6 +17,7 @@ pub fn run(id: &str, ctx: &Ctx) -> i32 {
         "C01" => c01::run(ctx),
         "C02" => c02::run(ctx),
         "C03" => c03::run(ctx),
+        "C04" => c04::run(ctx),
         "C05" => c05::run(ctx),
         "C06" => c06::run(ctx),
         "C07" => c07::run(ctx),
@@ -34,6 +36,7 @@ pub fn replay(id: &str, ctx: &Ctx, v: &Value) -> i32 {
         "C01" => c01::replay(ctx, v),
         "C02" => c02::replay(ctx, v),
         "C03" => c03::replay(ctx, v),
+        "C04" => c04::replay(ctx, v),
         "C05" => c05::replay(ctx, v),
         "C06" => c06::replay(ctx, v),
         "C07" => c07::replay(ctx, v),
